@@ -107,6 +107,8 @@ def check_parse_slice(model: Model, report: Report, rule: str) -> None:
                 )
                 if lexeme_conditional and run.exc_name() == "JSONPathSyntaxError":
                     continue  # rejection of particular lexemes is C03/C04's business
+                if any(isinstance(k, tuple) and k[0] == "int-digit-limit" and v != "ok" for k, v in run.ctx.world.items()):
+                    continue  # a component with thousands of digits is out of every index range: C05 / C13
                 prob = f"valid slice shape is rejected with {run.exc_name()}"
             else:
                 n_ok += 1
